@@ -152,7 +152,13 @@ def _apply(x, kw, table=None):
     if t[0] == 'pe':
         return ('u', i, tuple(sorted(kw.items())))
     if t[0] == 'it':
-        return _inner_iter(i, t[1], kw)
+        style = t[2] if len(t) > 2 else 'gen'
+        if style == 'gen':
+            return _inner_iter(i, t[1], kw)
+        if style == 'cls':
+            return InnerIter(i, t[1], kw)
+        import itertools
+        return itertools.chain(map(lambda ji: _inner_item(i, ji[0], ji[1], kw), enumerate(t[1])), _inner_end(i))
     raise AssertionError(t)
 
 
@@ -167,6 +173,44 @@ def _inner_iter(i, items, kw):
         else:
             yield ('u', it, tuple(sorted(kw.items())))
     log('M', i)
+
+
+def _inner_value(it, kw):
+    if it == 'n':
+        return None
+    if isinstance(it, list):
+        return ZOO[it[1]]
+    return ('u', it, tuple(sorted(kw.items())))
+
+
+def _inner_item(i, j, it, kw):
+    log('L', i * 1000 + j)
+    return _inner_value(it, kw)
+
+
+def _inner_end(i):
+    log('M', i)
+    return
+    yield
+
+
+class InnerIter:
+    """a hand-written iterator (not a generator) whose every advance is logged"""
+    def __init__(self, i, items, kw):
+        self.i, self.items, self.kw, self.j = i, items, kw, 0
+
+    def __iter__(self):
+        return self
+
+    def __next__(self):
+        if self.j >= len(self.items):
+            if self.j == len(self.items):
+                log('M', self.i)
+                self.j += 1
+            raise StopIteration
+        log('L', self.i * 1000 + self.j)
+        self.j += 1
+        return _inner_value(self.items[self.j - 1], self.kw)
 
 
 def f_mod(x, **kw):
@@ -396,7 +440,7 @@ def run_case(case):
     G.Pool = pool_factory
     res = dict(reads=[], infos=[], notes=[], timeout=False)
     old = signal.signal(signal.SIGALRM, _alarm)
-    signal.alarm(int(case.get('timeout', 30)))
+    signal.alarm(int(case.get('timeout', 15)))
     stream = None
     try:
         fk = case.get('fkind', 'module')
@@ -708,7 +752,7 @@ def _runner(case):
         return dict(harness_error=traceback.format_exc(), events=[], reads=[], infos=[], timeout=False)
 
 
-def run_cases(cases, workers=16, hard_timeout=60):
+def run_cases(cases, workers=16, hard_timeout=40):
     """every scenario runs in its own forked process and process group; the group is killed as soon as
     the result is in (or after `hard_timeout`), so nothing a scenario leaks can outlive it or block the check"""
     results = [None] * len(cases)
@@ -750,7 +794,7 @@ def run_cases(cases, workers=16, hard_timeout=60):
                             os.close(fd)
                         except OSError:
                             pass
-                    data = pickle.dumps(_runner(cases[idx]))
+                    data = pickle.dumps((_runner_multi if cases[idx].get('streams') else _runner)(cases[idx]))
                     off = 0
                     while off < len(data):
                         off += os.write(w, data[off:off + 65536])
@@ -774,7 +818,7 @@ def run_cases(cases, workers=16, hard_timeout=60):
         now = time.time()
         for fd in list(live):
             idx = live[fd][0]
-            if now - live[fd][2] > max(hard_timeout, cases[idx].get('timeout', 30) + 15):
+            if now - live[fd][2] > max(hard_timeout, cases[idx].get('timeout', 15) + 15):
                 reap(fd, 'scenario exceeded the hard time limit')
     return results
 
@@ -830,3 +874,217 @@ def isolated(fn, args=(), timeout=60):
         except Exception:  # noqa
             res = ('error', 'no result from the isolated run')
     return res
+
+
+# ---------------------------------------------------------------------------
+# several streams of ONE stage object, created / advanced / dropped in an interleaved plan
+# ---------------------------------------------------------------------------
+
+SBASE = 10000     # element id = SBASE * stream + local index
+
+
+class MSrc:
+    def __init__(self, s, n, tail):
+        self.s, self.n, self.tail, self.i = s, n, tail, 0
+
+    def __iter__(self):
+        return self
+
+    def __next__(self):
+        log('D', SBASE * self.s + self.i)
+        if self.i >= self.n:
+            if self.tail is not None:
+                raise make_exc(self.tail)
+            raise StopIteration
+        self.i += 1
+        return SBASE * self.s + self.i - 1
+
+
+def run_multi(case):
+    """case: cfg, streams=[{n, table, tail, kwargs}], plan=[[s, act], …] with act in K(create) N C G, fkind
+    returns dict(events, reads=[{stream, kind, id, draws, processed, yielded}], children_after, final_info …)"""
+    global LOGW, SEMS, TABLE, KW_EXPECT, MAINPID
+    import generatorpipeline.generatorpipeline as G
+    from generatorpipeline import pipeline
+    cfg = case['cfg']
+    MAINPID = os.getpid()
+    TABLE = {}
+    for s, st in enumerate(case['streams']):
+        for i, t in enumerate(st['table']):
+            TABLE[SBASE * s + i] = list(t)
+    KW_EXPECT = None
+    SEMS = None
+    rfd, LOGW = os.pipe()
+    ctl_r, ctl_w = os.pipe()
+    cpid = os.fork()
+    if cpid == 0:
+        code = 0
+        try:
+            os.close(ctl_r)
+            controller(rfd, None, None, ctl_w)
+        except BaseException:  # noqa
+            code = 3
+        finally:
+            os._exit(code)
+    os.close(ctl_w)
+    orig_pool = G.Pool
+
+    class LoggedPool(multiprocessing.pool.Pool):
+        def __init__(self, *a, **k):
+            super().__init__(*a, **k)
+            self._verif_term = False
+            log('P')
+
+        def terminate(self):
+            if not getattr(self, '_verif_term', True):
+                self._verif_term = True
+                log('X')
+            return super().terminate()
+
+    G.Pool = lambda processes=None, initializer=None, initargs=(), maxtasksperchild=None: LoggedPool(
+        processes, initializer, initargs, maxtasksperchild, context=mp.get_context())
+    res = dict(reads=[], notes=[], timeout=False, created={})
+    old = signal.signal(signal.SIGALRM, _alarm)
+    signal.alarm(int(case.get('timeout', 15)))
+    streams, srcs, state = {}, {}, {}
+    try:
+        fk = case.get('fkind', 'module')
+        func = f_mod if fk == 'module' else (F_LAMBDA if fk == 'lambda' else make_closure(TABLE))
+        P = pipeline(cfg['nworkers'], skipNone=cfg['skipNone'], extracache=cfg['extracache'],
+                     maxtasksperchild=cfg.get('maxtasksperchild'))(func)
+        for s, act in case['plan']:
+            st = case['streams'][s]
+            kw = dict(st.get('kwargs') or {})
+            if act == 'K':
+                ch0 = len(children((cpid,)))
+                srcs[s] = MSrc(s, st['n'], st.get('tail'))
+                streams[s] = P(srcs[s], **kw)
+                state[s] = 'created'
+                res['created'][s] = dict(draws=srcs[s].i, new_children=len(children((cpid,))) - ch0)
+            elif act == 'N':
+                if s not in streams or state[s] in ('closed',):
+                    continue
+                log('N', s)
+                try:
+                    v = next(streams[s])
+                    log('M', s)
+                    if v is None:
+                        log('y')
+                        vid = 'n'
+                    else:
+                        vid = identify(v, kw)
+                        log('Y', vid)
+                    info = P.pipe_info()
+                    res['reads'].append(dict(stream=s, kind='value', id=vid, draws=srcs[s].i, processed=info.processed,
+                                             yielded=info.yielded, info_str=str(info)))
+                    state[s] = 'open'
+                except StopIteration:
+                    log('M', s)
+                    log('E')
+                    info = P.pipe_info()
+                    res['reads'].append(dict(stream=s, kind='stop', draws=srcs[s].i, processed=info.processed, yielded=info.yielded))
+                    state[s] = 'finished'
+                except CaseTimeout:
+                    raise
+                except Exception as e:  # noqa
+                    log('M', s)
+                    eid = identify_exc(e)
+                    log('R', eid)
+                    info = P.pipe_info()
+                    res['reads'].append(dict(stream=s, kind='raised', id=eid, exc=repr(e)[:200], draws=srcs[s].i,
+                                             processed=info.processed, yielded=info.yielded))
+                    state[s] = 'finished'
+            elif act == 'C':
+                if s in streams:
+                    log('C', s)
+                    streams[s].close()
+                    state[s] = 'closed'
+            elif act == 'G':
+                if s in streams:
+                    log('C', s)
+                    del streams[s]
+                    gc.collect()
+                    state[s] = 'closed'
+        # end of the plan: whatever is still suspended is closed now (recorded), then the process table is inspected
+        res['left_open'] = sorted(s for s in streams if state.get(s) in ('open', 'created'))
+        for s in res['left_open']:
+            log('C', s)
+            streams[s].close()
+        left, waited = wait_no_children((cpid,), 3.0)
+        res['children_after'] = [(p, stt) for p, stt in left]
+        res['children_wait_s'] = round(waited, 3)
+        info = P.pipe_info()
+        res['final_info'] = dict(processed=info.processed, yielded=info.yielded, s=str(info))
+        res['final_draws'] = {s: srcs[s].i for s in srcs}
+    except CaseTimeout:
+        res['timeout'] = True
+    finally:
+        signal.alarm(0)
+        signal.signal(signal.SIGALRM, old)
+        G.Pool = orig_pool
+    try:
+        log('Z')
+    except OSError:
+        pass
+    hdr = b''
+    while len(hdr) < 8:
+        chunk = os.read(ctl_r, 8 - len(hdr))
+        if not chunk:
+            break
+        hdr += chunk
+    events = []
+    if len(hdr) == 8:
+        size = int.from_bytes(hdr, 'big')
+        data = b''
+        while len(data) < size:
+            chunk = os.read(ctl_r, size - len(data))
+            if not chunk:
+                break
+            data += chunk
+        events = pickle.loads(data)
+    os.waitpid(cpid, 0)
+    res['events'] = events
+    return res
+
+
+def stream_events(events, s):
+    """the events of stream s of a multi-stream run, as tokens for the single-stream acceptor"""
+    toks = []
+    cur = None
+    for tag, i, pid in events:
+        if tag == 'N':
+            if i == s:
+                toks.append('N')
+        elif tag == 'C':
+            if i == s:
+                toks.append('C')
+        elif tag == 'D':
+            if i // SBASE == s:
+                toks.append('D')
+        elif tag in ('S', 'F'):
+            if i // SBASE == s:
+                toks.append('%s%d' % (tag, i % SBASE))
+        elif tag == 'M':
+            cur = i
+        elif tag in ('Y', 'y', 'R', 'E') and cur == s:
+            if tag == 'Y':
+                toks.append('Y%d' % (i % SBASE))
+            elif tag == 'y':
+                toks.append('Yn')
+            elif tag == 'R':
+                toks.append('R%d' % i)
+            else:
+                toks.append('E')
+            cur = None
+    return toks
+
+
+def _runner_multi(case):
+    sys.dont_write_bytecode = True
+    import warnings
+    warnings.filterwarnings('ignore')
+    try:
+        return run_multi(case)
+    except Exception:  # noqa
+        import traceback
+        return dict(harness_error=traceback.format_exc(), events=[], reads=[], timeout=False)
